@@ -182,6 +182,17 @@ func c10LastEntryRepeats(c *Ctx) {
 					}
 					return
 				}
+				// the clamp may live in a helper: follow its return values
+				if cl, ok := stripConv(v).(*ssa.Call); ok {
+					if sc := cl.Call.StaticCallee(); sc != nil && sc.Blocks != nil && InRepo(funcPkgPath(sc)) && d < 6 {
+						eachInstr(sc, func(x ssa.Instruction) {
+							if r, ok := x.(*ssa.Return); ok && len(retResults(r)) >= 1 {
+								walk(retResults(r)[0], d+1)
+							}
+						})
+						return
+					}
+				}
 				switch {
 				case lenM1(v):
 					hasLast = true
